@@ -93,10 +93,13 @@ pub fn judge_guarded(judge: Judge, case: &Case, acc: &mut Acc) {
         }
         Err(p) => {
             acc.evaluations += 1;
-            acc.outcome("subject panicked inside judgement (charged to C01)");
+            acc.outcome("VIOLATION: library panicked inside the judged operation");
+            // a panic is never an admissible answer of the operation under judgement, whichever
+            // property the operation belongs to
+            let prop = crate::common::current_prop();
             acc.violation(Violation {
-                property: "C01".into(),
-                signature: format!("C01/panic/{}", panic_label(&p)),
+                property: prop.clone(),
+                signature: format!("{}/panic/{}/{}", prop, panic_label(&p), case.op),
                 what: format!("library panicked while case {} was judged: {}", case.op, p.message),
                 expected: "a value or an error".into(),
                 observed: format!("panic at {}", p.location),
